@@ -428,6 +428,7 @@ def check(ctx, report):
     finite_numbers(ctx, report)
     markdown_yields_text(ctx, report)
     list_concatenation(ctx, report)
+    equal_values_render_equal(ctx, report)
     report.floor('C14.R1', 20, 'iteration obligations')
     report.floor('C14.R4', 15, '_asdict overrides')
 
@@ -528,6 +529,11 @@ MARKDOWN_FAMILY = {'_markdown_result', '_markdown_result_complex', '_markdown_re
 TEXT_METHODS = {'format', 'join', 'replace', 'strip', 'lstrip', 'rstrip', 'lower', 'upper', 'title', 'capitalize', 'ljust', 'rjust', 'zfill', 'decode'}
 
 
+def in_family(name):
+    # helpers split off a Markdown function carry its name as a prefix and are checked like it
+    return name in MARKDOWN_FAMILY or name.startswith('_markdown_result')
+
+
 def markdown_yields_text(ctx, report, RULE='C14.R11'):
     """every function of the Markdown family (``_as_markdown`` of every class, ``_markdown_result*`` of Serializable, the text
     encoders) returns what another member of the family returned, or a pair whose second component is text: a literal, ``str()``,
@@ -537,12 +543,12 @@ def markdown_yields_text(ctx, report, RULE='C14.R11'):
     funcs = []
     for c in model.all_classes:
         for name, f in getattr(c, 'methods', {}).items():
-            if name in MARKDOWN_FAMILY or (name == '__call__' and 'TextEncoder' in c.name):
+            if in_family(name) or (name == '__call__' and 'TextEncoder' in c.name):
                 funcs.append(f)
 
     def family_call(node):
-        return isinstance(node, ast.Call) and ((isinstance(node.func, ast.Attribute) and node.func.attr in MARKDOWN_FAMILY) or
-                                               (isinstance(node.func, ast.Name) and node.func.id in MARKDOWN_FAMILY))
+        return isinstance(node, ast.Call) and ((isinstance(node.func, ast.Attribute) and in_family(node.func.attr)) or
+                                               (isinstance(node.func, ast.Name) and in_family(node.func.id)))
 
     def analyse(f):
         assigns = {}        # local -> list of (value node, 'whole' | 'second', enclosing isinstance-string names)
@@ -663,3 +669,85 @@ def list_concatenation(ctx, report, RULE='C14.R12'):
                 if fld.validator_node is not None and 'deep_iterable' in ast.unparse(fld.validator_node):
                     report.count(RULE)
     report.floor(RULE, 20, 'deep_iterable validated fields')
+
+
+# ---- R13: values that compare equal are rendered equal ------------------------------------------------------------------------
+
+def equal_values_render_equal(ctx, report, RULE='C14.R13'):
+    """two aware datetimes that denote the same instant in different zones are equal, and so are the objects that hold them (an
+    SCT built with a +02:00 timestamp and its parse / compose round trip, which is in UTC); bytes and bytearray with the same
+    content are equal.  Serializable._json_result and Serializable._markdown_result are evaluated (sa.miniexec, with the real
+    datetime type) on such pairs: the renderings have to be identical."""
+    import datetime as dt
+    import enum
+    import ipaddress
+    from ..miniexec import Evaluator, METHODS, Obj, Raised, Unsupported, class_call_hook
+    model = ctx.model
+    report.rule(RULE, 'leaf values that compare equal (one instant in two zones, bytes and bytearray) have one JSON and one Markdown rendering')
+    ser, encoder = model.try_cls('Serializable'), model.try_cls('SerializableTextEncoder')
+    jr = ser.methods.get('_json_result') if ser is not None else None
+    mr = ser.methods.get('_markdown_result') if ser is not None else None
+    enc = encoder.methods.get('__call__') if encoder is not None else None
+    if jr is None or mr is None or enc is None:
+        report.error(RULE + ': Serializable._json_result / _markdown_result / SerializableTextEncoder.__call__ vanished')
+        return
+    for f in (jr, mr, enc):
+        report.touch(f)
+    for m in ('astimezone', 'replace', 'isoformat', 'strftime', 'utcoffset'):
+        METHODS.add((dt.datetime, m))
+
+    class Never:        # a library class nothing in the table is an instance of
+        pass
+
+    def names(name):
+        table = {'datetime.datetime': dt.datetime, 'datetime.timedelta': dt.timedelta, 'enum.Enum': enum.Enum, 'dateutil.tz.UTC': dt.timezone.utc,
+                 'datetime.timezone.utc': dt.timezone.utc, 'float': float, 'bool': bool, 'int': int, 'str': str, 'bytes': bytes, 'bytearray': bytearray,
+                 'list': list, 'tuple': tuple, 'dict': dict, 'set': set, 'frozenset': frozenset}
+        if name in table:
+            return table[name]
+        if name.startswith('ipaddress.'):
+            return getattr(ipaddress, name.split('.')[-1])
+        if name.startswith('urllib3.'):
+            return Never
+        raise Unsupported('free name ' + name)
+
+    def extra(n, ev):
+        d = ast.unparse(n.func)
+        if d == 'attr.has':
+            return hasattr(ev.ev(n.args[0]), '__attrs_attrs__')
+        if d == 'type' and len(n.args) == 1:
+            return type(ev.ev(n.args[0]))
+        if d == 'hasattr':
+            return hasattr(ev.ev(n.args[0]), ev.ev(n.args[1]))
+        if d.endswith('.post_text_encoder'):
+            h2 = class_call_hook(encoder, extra, model)
+            return Evaluator({'self': Obj(), 'obj': ev.ev(n.args[0]), 'level': ev.ev(n.args[1])}, h2, h2.name_hook_for(enc.module, names)).function(enc.node)
+        if d == 'bytes_to_hex_string':
+            v = ev.ev(n.args[0])
+            return ':'.join('%02X' % b for b in bytes(v))
+        return NotImplemented
+    hook = class_call_hook(ser, extra, model)
+    nh = hook.name_hook_for(ser.module, names)
+    noon = dt.datetime(2020, 1, 1, 12, 0, 0, tzinfo=dt.timezone.utc)
+    PAIRS = [('instant', noon, noon.astimezone(dt.timezone(dt.timedelta(hours=2)))),
+             ('instant', noon, noon.astimezone(dt.timezone(dt.timedelta(hours=-9, minutes=-30)))),
+             ('octets', b'\\x01\\xab', bytearray(b'\\x01\\xab'))]
+    problems = {}
+    try:
+        for kind, a, b in PAIRS:
+            assert a == b
+            for f, env in ((jr, {}), (mr, {'cls': 'cls', 'level': 0})):
+                report.count(RULE)
+                out = []
+                for v in (a, b):
+                    e = dict(env)
+                    e['obj'] = v
+                    out.append(Evaluator(e, hook, nh).function(f.node))
+                if out[0] != out[1]:
+                    problems.setdefault((f.construct, kind), 'the equal values %r and %r are rendered as %r and %r: an object and its parse / compose round trip give different reports' % (a, b, out[0], out[1]))
+    except (Unsupported, Raised) as e:
+        report.add(RULE, jr.construct + '@tabulation', 'the leaf renderers left the subset the evaluation understands: %s' % e)
+        return
+    for (cons, kind), text in sorted(problems.items()):
+        report.add(RULE, '%s@equal[%s]' % (cons, kind), text)
+    report.floor(RULE, 6, 'equal pairs x renderers')
